@@ -106,8 +106,14 @@ def build_items(ctx, quick):
     ctx.log("deep nestings: %d sampled of %d simulated states" % (min(len(dl), 300 if quick else 3000), len(dl)))
     from props import scale
     big = ("nest_paren", "nest_not", "nest_arr", "nest_call", "nest_blk", "nest_fn", "rep_call0", "rep_if_else")
-    for n, s in enumerate(x for x in scale.items(ctx, quick) if x["n"] <= 130 or (x["fam"] in big and x["n"] <= 300 and x["id"].endswith("sp"))):
+    for n, s in enumerate(x for x in scale.items(ctx, quick) if x["n"] <= 130 or (x["fam"] in big and x["n"] <= 300 and x["id"].endswith("sp"))
+                          or (x["fam"] in ("nest_blk", "nest_fn") and x["n"] >= 1100)):       # beyond a thousand open contexts
         inst = [["r"], ["s", "e"], ["e", "r", "s"], ["s"], ["t", "s", "r"]][n % 5]
+        if s["n"] >= 1100:
+            if not s["id"].endswith("sp"):
+                continue
+            # quick tier: only a token interceptor (the walk over a log of thousands of parse steps is left to the thorough tier)
+            inst = ["t"] if quick else ["s"]
         items.append(dict(id=s["id"], text=s["text"], inst=inst, builds=1))
     nvalid = len(items)
     # malformed inputs: token strings of the C11 enumerator, with longer installation histories
